@@ -38,6 +38,12 @@ def run(rep, tier):
                 continue
             if c["ok"] and not c["strict"] and oc == "err":
                 continue      # a shadowed duplicate is unrepresentable: acceptance is UNSPEC
+            if c["part"] == "token":
+                # entry points that are handed a serde_json::Value: the harness makes that Value from the text with serde_json
+                # itself, which (feature raw_value) rewrites such an object before ruma sees anything
+                who = [w for w in who if not w.split(":", 1)[1].startswith(("value+", "map+"))]
+                if not who:
+                    continue
             entry = sorted({w.split(":", 1)[1] for w in who})
             if oc.startswith("panic"):
                 cls = "canon/panic"
@@ -49,6 +55,8 @@ def run(rep, tier):
                 cls = "canon/valid-value-rejected"
             else:
                 cls = "canon/wrong-bytes"
+            if c["part"] == "token":
+                cls = "canon/key-that-serde_json-reserves-for-raw-values/" + cls.split("/", 1)[1]
             got = oc
             if oc.startswith("ok:") and len(oc) > 3:
                 got = bytes(int(x) for x in oc[3:].split(",")).decode("utf-8", "replace")
